@@ -24,7 +24,7 @@ BUDGET = 200000
 
 
 def plan(tier, seed):
-    return common.plan_shards(tier, seed, n_quick=220, n_thorough=1000, budget_quick=30, budget_thorough=300)
+    return common.plan_shards(tier, seed, n_quick=220, n_thorough=6000, budget_quick=30, budget_thorough=300)
 
 
 def gates(tier):
